@@ -191,31 +191,33 @@ type Sample struct {
 }
 
 type Report struct {
-	Harness         string
-	Paths           int64
-	Completed       int64
-	Pruned          int64
-	Inconclusive    map[string]int
-	Violations      []Violation
-	Reached         map[string]int
-	Branches        int64
-	AssertsSolver   int64
-	AssertsConcrete int64
-	Steps           int64
-	SolverSat       int
-	SolverUnsat     int
-	SolverUnknown   int
-	SolverTime      time.Duration
-	SolverErrors    []string
-	Funcs           map[string]int
-	FuncInstr       map[string]int
-	Samples         []Sample
-	Wall            time.Duration
-	Truncated       bool
-	PanicEvents     map[string]int
-	Races           map[string]int
-	MaxPending      int
-	Witnesses       map[string]Violation
+	Harness            string
+	Paths              int64
+	Completed          int64
+	Pruned             int64
+	Inconclusive       map[string]int
+	Violations         []Violation
+	Reached            map[string]int
+	Branches           int64
+	AssertsSolver      int64
+	AssertsConcrete    int64
+	Steps              int64
+	SolverSat          int
+	SolverUnsat        int
+	SolverUnknown      int
+	SolverTime         time.Duration
+	SolverErrors       []string
+	Funcs              map[string]int
+	FuncInstr          map[string]int
+	Samples            []Sample
+	Wall               time.Duration
+	Truncated          bool
+	PanicEvents        map[string]int
+	Races              map[string]int
+	MaxPending         int
+	UnlistedViolations int
+	KnownViolations    int
+	Witnesses          map[string]Violation
 }
 
 // Explore runs the harness over every feasible path (depth-first over
@@ -317,7 +319,17 @@ func Explore(p *Program, cfg Config) *Report {
 				} else {
 					rep.Completed++
 				}
-				rep.Violations = append(rep.Violations, res.Violations...)
+				for _, v := range res.Violations {
+					if v.Unlisted {
+						rep.UnlistedViolations++
+						rep.Violations = append(rep.Violations, v)
+					} else {
+						rep.KnownViolations++
+						if rep.KnownViolations <= 50 {
+							rep.Violations = append(rep.Violations, v)
+						}
+					}
+				}
 				for _, w := range res.Witnesses {
 					if _, ok := rep.Witnesses[w.Label]; !ok {
 						rep.Witnesses[w.Label] = w
@@ -342,7 +354,7 @@ func Explore(p *Program, cfg Config) *Report {
 					rep.Truncated = true
 					stop = true
 				}
-				if len(rep.Violations) > 200 {
+				if rep.UnlistedViolations > 50 {
 					rep.Truncated = true
 					stop = true
 				}
